@@ -41,6 +41,7 @@ type Run struct {
 	outside []string
 	unclaimed []Unclaimed
 	hints     map[string]string
+	bounded   []BoundedResult
 }
 
 // Unclaimed: obligations generated and attempted on every run but not part of the claim (not robustly dischargeable
@@ -389,6 +390,31 @@ func (r *Run) report(known KnownFile, evOut string, t0 time.Time) int {
 			code = 1
 		}
 	}
+	// bounded stand-ins for trusted contracts: a failing one is a violation with a concrete failing input
+	boundedViolations := 0
+	for i := range r.bounded {
+		b := &r.bounded[i]
+		if b.Passed {
+			continue
+		}
+		os.MkdirAll(replayDir, 0o755)
+		path := filepath.Join(replayDir, "bounded_"+sanitize(b.Name)+".json")
+		rep := map[string]interface{}{
+			"property":   r.prop,
+			"obligation": "bounded:" + b.Name,
+			"what":       "bounded check of the trusted contract of " + b.Function + " on the real code (" + b.Bound + ")",
+			"failure":    b.Failure,
+			"reproduced": true,
+			"output":     tail(b.output, 4000),
+		}
+		data, _ := json.MarshalIndent(rep, "", " ")
+		os.WriteFile(path, data, 0o644)
+		fmt.Printf("VIOLATION property=%s replay=%s\n", r.prop, path)
+		fmt.Printf("  obligation bounded:%s [bounded stand-in for a trusted contract] %s\n", b.Name, b.Failure)
+		violationPaths = append(violationPaths, path)
+		boundedViolations++
+		code = 1
+	}
 	// evidence
 	byKind := map[string]int{}
 	var funcs []string
@@ -433,7 +459,7 @@ func (r *Run) report(known KnownFile, evOut string, t0 time.Time) int {
 		"seed":        r.seed,
 		"level":       level,
 		"wall_s":      round3(time.Since(t0).Seconds()),
-		"violations":  len(violations),
+		"violations":  len(violations) + boundedViolations,
 		"assumptions": assumptions,
 		"coverage": map[string]interface{}{
 			"obligations":             len(all),
@@ -455,6 +481,7 @@ func (r *Run) report(known KnownFile, evOut string, t0 time.Time) int {
 			"obligations_other_properties_same_functions": r.other,
 			"single_solver":           single,
 			"contract_files":          relFiles(r.e.contractFiles),
+			"bounded_stand_ins":       r.bounded,
 			"explanation":             "Every obligation is generated from the go/ssa form of /repo's working tree (build tag verif) and discharged only on `unsat`. While a known finding is open its obligations are counted in `obligations` but not in `discharged`: the property is then NOT proved on this tree.",
 		},
 	}
@@ -469,7 +496,7 @@ func (r *Run) report(known KnownFile, evOut string, t0 time.Time) int {
 		}
 	}
 	fmt.Printf("property=%s tier=%s obligations=%d discharged=%d known=%d violations=%d functions=%d wall=%.1fs (vcgen %.1fs, solve %.1fs)\n",
-		r.prop, r.tier, len(all), discharged, len(knownHits), len(violations), len(funcs), time.Since(t0).Seconds(), r.genSecs, r.solveSecs)
+		r.prop, r.tier, len(all), discharged, len(knownHits), len(violations)+boundedViolations, len(funcs), time.Since(t0).Seconds(), r.genSecs, r.solveSecs)
 	if len(all) == 0 {
 		fmt.Printf("VIOLATION property=%s replay=%s no-failing-input-found\n", r.prop, "none (zero obligations generated: vacuous check)")
 		return 1
